@@ -7,6 +7,7 @@
 //!                   All other lines (TLC's own messages) are copied to `--tlc-log`.
 //! `harness record`  drives the real crate with seeded random inputs and writes an ndjson trace
 //!                   that a `Trace_*.tla` specification validates.
+mod convert;
 mod ctx;
 mod enc;
 mod entry;
@@ -136,6 +137,19 @@ fn main() {
                 println!("{events}");
             };
             std::thread::Builder::new().stack_size(256 << 20).spawn(run).expect("spawn").join().expect("recorder thread");
+        },
+        Some("convert") => {
+            // raw hook trace of /repo's own tests -> events of Trace_Api.tla
+            let input = arg(&args, "--in").expect("--in");
+            let out = arg(&args, "--out").expect("--out");
+            let primreq = arg(&args, "--primreq").unwrap_or_else(|| format!("{out}.primreq.json"));
+            let max: usize = arg(&args, "--max-events").and_then(|s| s.parse().ok()).unwrap_or(usize::MAX);
+            let st = convert::convert(&input, &out, &primreq, max);
+            println!(
+                "{}",
+                serde_json::json!({"builds": st.builds, "evals": st.evals, "skipped_numeric_types": st.skipped_numeric,
+                                   "skipped_contexts": st.skipped_context, "bad_lines": st.bad})
+            );
         },
         Some("probe-lenunit") => {
             // the unit `len` counts in: a model parameter of Builtins.tla
